@@ -296,6 +296,8 @@ class SymArray(np.ndarray):
             for idx in np.ndindex(*self.shape):
                 out[idx] = bool(b[idx])
             return out
+        if np.dtype(dtype).kind in "iu" and contains_sym(self):
+            return _elementwise(_trunc1, self)  # C cast: truncation toward zero
         return np.ndarray.astype(self.view(np.ndarray), dtype, *a, **k)
 
     def copy(self, *a, **k):
@@ -325,6 +327,17 @@ def _bool_not(a):
     if isinstance(a, (bool, np.bool_)):
         return not a
     return ~a
+
+
+def _trunc1(v):
+    """float → integer cast (toward zero) of a symbolic real, kept as a real-sorted term"""
+    import z3
+    if isinstance(v, Special):
+        raise HarnessError("integer cast of nan/inf")
+    if not isinstance(v, Sym):
+        return int(v)
+    e = v.e
+    return Sym(z3.If(e >= 0, z3.ToReal(z3.ToInt(e)), -z3.ToReal(z3.ToInt(-e))))
 
 
 def _sqrt1(v):
@@ -541,6 +554,8 @@ class NpProxy:
             if r.ndim == 0:
                 return r
             return r.view(SymArray)
+        if contains_sym(obj) and dtype is not object and np.dtype(dtype).kind in "iu":
+            return _elementwise(_trunc1, np.array(_base(obj), dtype=object).view(SymArray))  # C cast: truncation toward zero
         return np.array(_base(obj) if contains_sym(obj) else obj, dtype, *a, **kw)
 
     def asarray(self, obj, dtype=None, *a, **kw):
